@@ -1,61 +1,76 @@
 --------------------------- MODULE ProxyMsgLimit ---------------------------
 (* C07.  Body limits in both directions: which limit applies (path over server over default;     *)
-(* pool over proxy over default), and Request/Response.FetchPayload step by step:                 *)
+(* pool over proxy over default), and Request/Response.FetchPayload step by step, for a SEQUENCE  *)
+(* of LimK identical requests served by the same mux / proxy instance:                            *)
+(*     Route      mux.search: with a route cache (cacheSize > 0) the first request puts the route  *)
+(*                it found into the cache, the following ones are served from the cache           *)
 (*     Select     mux.serveHTTP / ServerPool.buildResponse pick the configured value              *)
+(*     Compress   (responses, compression active) compression.compress wraps the body: the length  *)
+(*                becomes unknown, the body grows by the gzip framing, and a source that breaks    *)
+(*                off makes the compress reader end with an error                                  *)
 (*     Default    FetchPayload: 0 means DefaultMaxPayloadSize                                      *)
 (*     Stream     negative: the body is not read at all, it is handed on as a stream               *)
 (*     ByHeader   an announced Content-Length above the limit is refused without reading           *)
 (*     ReadFull   announced length: exactly that many bytes are read (io.ReadFull)                  *)
 (*     ReadLimited / Probe   unknown length: read at most `limit` bytes, then try to read one more *)
 (*     Map        the outcome becomes 413 / 400 (mux) resp. 500 (proxy), or the message goes on     *)
-(* The contract (ProxyMsgDefs, Part 4) is stated on what client and backend observe.                *)
+(*     NextReq    the next request of the sequence                                                 *)
+(* The contract (ProxyMsgDefs, Part 4) is stated on what client and backend observe for EACH       *)
+(* request; it does not depend on the history.                                                     *)
 (* Sizes are abstract (limits 3 and 5, default interval [8, 9]); the harness scales them.           *)
 EXTENDS ProxyMsgDefs
 
-CONSTANT CodeDefault      \* DefaultMaxPayloadSize of the code model: any value in [D.lo, D.hi] must do
+CONSTANTS CodeDefault,    \* DefaultMaxPayloadSize of the code model: any value in [D.lo, D.hi] must do
+          HitLimit        \* "kept": the limit is selected per request (the code); "lost": negative control - a route
+                          \* served from the cache has forgotten the limit (FetchPayload(0)), must violate the contract
 
-D == [lo |-> 8, hi |-> 9]
+D == LimD
+Inner == LimInner
+Outer == LimOuter
 
-Inner == {0, 3, -1}
-Outer == {0, 5, -1}
+VARIABLES dir, inner, outer, w, cache,   \* the scenario (cache: route cache enabled; w.comp: response compression)
+          k, rc,                         \* number of the request in the sequence; content of the route cache
+          pc, hit, lim, cl, avail, bad,  \* the request in flight: program counter, route came from the cache, limit in use,
+                                         \* announced length, bytes the source delivers, source ends with an error
+          read, res                      \* bytes read, result of FetchPayload
 
-(* bodies around the effective limit: L-1, L, L+1, 4L (and empty); for streams: small and beyond the default *)
-Sizes(i, o) == IF EffHi(i, o, D) < 0 THEN {0, 1, D.hi + 1}
-               ELSE {0, EffLo(i, o, D) - 1, EffLo(i, o, D), EffHi(i, o, D) + 1, 4 * EffHi(i, o, D)}
+vars == <<dir, inner, outer, w, cache, k, rc, pc, hit, lim, cl, avail, bad, read, res>>
+scn  == <<dir, inner, outer, w, cache>>
 
-Wires(dir, i, o) ==
-    {[enc |-> "cl", declared |-> n, actual |-> n] : n \in Sizes(i, o)}
-    \cup {[enc |-> "cl", declared |-> n, actual |-> n - 1] : n \in {x \in Sizes(i, o) : x > 0}}      \* lying length
-    \cup {[enc |-> e, declared |-> -1, actual |-> m] : e \in (IF dir = "req" THEN {"chunked"} ELSE {"chunked", "close"}),
-                                                       m \in Sizes(i, o)}
+Init == /\ dir \in {"req", "resp"} /\ inner \in Inner /\ outer \in Outer /\ w \in LimWires(dir, inner, outer)
+        /\ cache \in (IF dir = "req" THEN BOOLEAN ELSE {FALSE})
+        /\ k = 1 /\ rc = "empty"
+        /\ pc = "Route" /\ hit = FALSE /\ lim = 0 /\ cl = -1 /\ avail = 0 /\ bad = FALSE /\ read = 0 /\ res = "-"
 
-VARIABLES dir, inner, outer, w,   \* the scenario
-          pc, lim, read, res      \* FetchPayload: program counter, limit in use, bytes read, result
+Go(p) == pc' = p /\ UNCHANGED scn /\ UNCHANGED k
 
-vars == <<dir, inner, outer, w, pc, lim, read, res>>
+Route   == /\ pc = "Route" /\ hit' = (cache /\ rc = "route") /\ rc' = (IF cache THEN "route" ELSE rc)
+           /\ Go("Select") /\ UNCHANGED <<lim, cl, avail, bad, read, res>>
+Select  == /\ pc = "Select"
+           /\ lim' = (IF hit /\ HitLimit = "lost" THEN 0 ELSE IF inner # 0 THEN inner ELSE outer)
+           /\ cl' = (IF w.enc = "cl" THEN w.declared ELSE -1) /\ avail' = w.actual /\ bad' = FALSE
+           /\ Go(IF w.comp THEN "Compress" ELSE "Default") /\ UNCHANGED <<rc, hit, read, res>>
+Compress == /\ pc = "Compress" /\ cl' = -1 /\ avail' = avail + LimGz /\ bad' = Short(w)
+            /\ Go("Default") /\ UNCHANGED <<rc, hit, lim, read, res>>
+Default == pc = "Default" /\ lim' = (IF lim = 0 THEN CodeDefault ELSE lim) /\ Go("Branch") /\ UNCHANGED <<rc, hit, cl, avail, bad, read, res>>
+Stream  == pc = "Branch" /\ lim < 0 /\ res' = "stream" /\ read' = avail /\ Go("Map") /\ UNCHANGED <<rc, hit, lim, cl, avail, bad>>
+ByHeader == pc = "Branch" /\ lim >= 0 /\ cl > lim /\ res' = "toolarge" /\ Go("Map") /\ UNCHANGED <<rc, hit, lim, cl, avail, bad, read>>
+ReadFull == /\ pc = "Branch" /\ lim >= 0 /\ cl <= lim /\ cl > 0
+            /\ read' = Min2(avail, cl) /\ res' = (IF avail < cl THEN "err" ELSE "ok")
+            /\ Go("Map") /\ UNCHANGED <<rc, hit, lim, cl, avail, bad>>
+Empty   == pc = "Branch" /\ lim >= 0 /\ cl = 0 /\ res' = "ok" /\ Go("Map") /\ UNCHANGED <<rc, hit, lim, cl, avail, bad, read>>
+ReadLimited == /\ pc = "Branch" /\ lim >= 0 /\ cl < 0
+               /\ read' = Min2(avail, lim)
+               /\ IF read' < lim THEN res' = (IF bad THEN "err" ELSE "ok") /\ Go("Map") ELSE res' = res /\ Go("Probe")
+               /\ UNCHANGED <<rc, hit, lim, cl, avail, bad>>
+Probe   == /\ pc = "Probe" /\ res' = (IF avail - read > 0 THEN "toolarge" ELSE IF bad THEN "err" ELSE "ok")
+           /\ Go("Map") /\ UNCHANGED <<rc, hit, lim, cl, avail, bad, read>>
+Map     == pc = "Map" /\ Go("done") /\ UNCHANGED <<rc, hit, lim, cl, avail, bad, read, res>>
+NextReq == /\ pc = "done" /\ k < LimK /\ k' = k + 1 /\ pc' = "Route"
+           /\ hit' = FALSE /\ lim' = 0 /\ cl' = -1 /\ avail' = 0 /\ bad' = FALSE /\ read' = 0 /\ res' = "-"
+           /\ UNCHANGED scn /\ UNCHANGED rc
 
-Init == /\ dir \in {"req", "resp"} /\ inner \in Inner /\ outer \in Outer /\ w \in Wires(dir, inner, outer)
-        /\ pc = "Select" /\ lim = 0 /\ read = 0 /\ res = "-"
-
-CL == IF w.enc = "cl" THEN w.declared ELSE -1
-Go(p) == pc' = p /\ UNCHANGED <<dir, inner, outer, w>>
-
-Select  == pc = "Select" /\ lim' = (IF inner # 0 THEN inner ELSE outer) /\ Go("Default") /\ UNCHANGED <<read, res>>
-Default == pc = "Default" /\ lim' = (IF lim = 0 THEN CodeDefault ELSE lim) /\ Go("Branch") /\ UNCHANGED <<read, res>>
-Stream  == pc = "Branch" /\ lim < 0 /\ res' = "stream" /\ read' = w.actual /\ Go("Map") /\ UNCHANGED lim
-ByHeader == pc = "Branch" /\ lim >= 0 /\ CL > lim /\ res' = "toolarge" /\ Go("Map") /\ UNCHANGED <<lim, read>>
-ReadFull == /\ pc = "Branch" /\ lim >= 0 /\ CL <= lim /\ CL > 0
-            /\ read' = Min2(w.actual, CL) /\ res' = (IF w.actual < CL THEN "err" ELSE "ok")
-            /\ Go("Map") /\ UNCHANGED lim
-Empty   == pc = "Branch" /\ lim >= 0 /\ CL = 0 /\ res' = "ok" /\ Go("Map") /\ UNCHANGED <<lim, read>>
-ReadLimited == /\ pc = "Branch" /\ lim >= 0 /\ CL < 0
-               /\ read' = Min2(w.actual, lim)
-               /\ IF read' < lim THEN res' = "ok" /\ Go("Map") ELSE res' = res /\ Go("Probe")
-               /\ UNCHANGED lim
-Probe   == pc = "Probe" /\ res' = (IF w.actual - read > 0 THEN "toolarge" ELSE "ok") /\ Go("Map") /\ UNCHANGED <<lim, read>>
-Map     == pc = "Map" /\ Go("done") /\ UNCHANGED <<lim, read, res>>
-
-Next == Select \/ Default \/ Stream \/ ByHeader \/ ReadFull \/ Empty \/ ReadLimited \/ Probe \/ Map
+Next == Route \/ Select \/ Compress \/ Default \/ Stream \/ ByHeader \/ ReadFull \/ Empty \/ ReadLimited \/ Probe \/ Map \/ NextReq
 Spec == Init /\ [][Next]_vars
 
 (* what client / backend observe, from the step machine's result *)
@@ -65,12 +80,12 @@ ReqObs ==
       [] res = "stream"   -> [status |-> IF Short(w) THEN 499 ELSE 200, forwarded |-> TRUE, intact |-> ~Short(w), bstatus |-> 200]
       [] OTHER            -> [status |-> 200, forwarded |-> TRUE, intact |-> read = w.actual, bstatus |-> 200]
 RespObs ==
-    CASE res \in {"toolarge", "err"} -> [status |-> 500, intact |-> w.actual = 0, complete |-> TRUE, got |-> 0, bstatus |-> 200]
-      [] res = "stream" -> [status |-> 200, intact |-> ~Short(w), complete |-> ~Short(w), got |-> w.actual, bstatus |-> 200]
-      [] OTHER          -> [status |-> 200, intact |-> read = w.actual, complete |-> TRUE, got |-> read, bstatus |-> 200]
+    CASE res \in {"toolarge", "err"} -> [status |-> 500, intact |-> w.actual = 0 /\ ~Short(w), complete |-> TRUE, got |-> 0, bstatus |-> 200]
+      [] res = "stream" -> [status |-> 200, intact |-> ~Short(w), complete |-> ~Short(w), got |-> read, bstatus |-> 200]
+      [] OTHER          -> [status |-> 200, intact |-> read = avail /\ ~bad, complete |-> TRUE, got |-> read, bstatus |-> 200]
 
 Done == pc = "done"
-(* the property *)
+(* the property: for every request of the sequence *)
 ReqLimit  == Done /\ dir = "req" => L_ReqContract(inner, outer, D, w, ReqObs)
 RespLimit == Done /\ dir = "resp" => L_RespContract(inner, outer, D, w, RespObs)
 (* clause by clause *)
